@@ -184,14 +184,6 @@ def expected_parts(case, posts):
     return None
 
 
-def _full(case, part):
-    """A part handed to the updater, broadcast to the trained parameter (flat float64)."""
-    shp = param_shape(case)
-    if part is None:
-        return np.zeros(int(np.prod(shp)))
-    return part
-
-
 def run_recorded(case, negate_signal=False):
     """Builds the cell, runs the history and applies every check that holds for any
     history. Returns a dict with the observations for the metamorphic legs."""
@@ -214,9 +206,6 @@ def run_recorded(case, negate_signal=False):
     tag = case["trainer"] + (f"[{param}]" if case["trainer"] == HOMEO else "")
     info = {"trainer": case["trainer"], "param": param}
     state = {"prev": c08._np(getattr(conn, param)), "pos": None, "neg": None, "applied": []}
-
-    def bshape(t_):
-        return None if t_ is None else tuple(t_.shape)
 
     def before_update(t):
         with impl("accumulator parts"):
@@ -445,7 +434,7 @@ _TC, _LR, _SIG = c08._TC, c08._LR, c08._SIG
 
 
 @st.composite
-def hyper9(draw, trainer, regime=None):
+def hyper9(draw, trainer):
     if trainer in PAIR_FAMILY:
         return draw(c08.hyper(trainer))
     if trainer == HOMEO:
@@ -568,6 +557,12 @@ def split_case(draw, tier="quick"):
     case["post"] = [[c08._bits(draw, no, p_post) for _ in range(B)] for _ in range(T)]
     if trainer in MODULATED:
         _signals(draw, case, T)
+    if trainer != HOMEO and draw(st.booleans()):
+        # bias towards the two mixed sign modes (they are the ones that produce both parts)
+        hp = case["hp"]
+        a, b_ = (("lr_post_pair", "lr_pre_pair") if trainer in c08.TRIPLET_TRAINERS else
+                 ("lr_post", "lr_pre") if trainer in PAIR_FAMILY else ("lr_causal", "lr_anti"))
+        hp[b_] = -abs(hp[b_]) if hp[a] >= 0 else abs(hp[b_])
     if trainer == HOMEO:
         # most cases stay in the region where the signed term is >= 0 everywhere (known finding
         # C09-homeostasis-negative-part makes the rest unreachable for the remaining checks)
